@@ -242,6 +242,7 @@ class World:
         keys = [k for k in nfit.FP_DEFAULT if k in fp]
         fpstr = ", ".join(f"{k}={show_v(k, fp[k], self.step_ids)}" for k in keys)
         return {"outcome": outcome, "res": has_res, "fitcols": fitcols, "fit_ran": counter.fits > 0,
+                "scan": "optimal_fit_E_array" in fp,
                 "rated": counter.raters, "fp": "{" + fpstr + "}", "extra": extra}
 
     # ------------------------------------------------------------------ the fresh-object oracle
